@@ -166,3 +166,17 @@ def check(case):
     if max(nrew or [0]) >= 3:
         res.tag('reweighted>=3')
     return res
+
+
+# ---- thorough tier: exhaustive small scope (enumeration inside the same harness and oracle)
+EXTRA_EXHAUSTIVE = {'quick': False, 'thorough': False}     # the small scope is complete; the generated part is a sample
+
+
+def extra_chunks(tier, seed):
+    from .. import smallscope
+    return smallscope.chunks(model.GREGORY) if tier == 'thorough' else []
+
+
+def extra_cases(tier, seed, chunk):
+    from .. import smallscope
+    return smallscope.cases(chunk, decorate=None)
